@@ -111,6 +111,7 @@ func zzRet[T any](name string) T { panic("spec only") }
 // Every select of Write that can park (no default clause) also waits on the genDone channel of the
 // generation it loaded, and Write performs no channel operation outside a select.
 //@ func (*transport).Write
+//@ emits atomic.Load:gen, chan.send
 //@ nosafety nil-deref nil-iface
 //@ waits [gendone] zzRet[*genState]("atomic.Load:gen").genDone
 
@@ -135,32 +136,38 @@ func specBlkR(blk block) bool     { return blk.header[0]&0x80 != 0 }
 //@ func (*assembler).reset
 //@ requires a != nil
 //@ modifies a.open, a.header, a.blocks, a.expected, a.lastBlockTime
-//@ ensures [closed] !a.open && a.expected == 0 && len(a.blocks) == 0
+//@ ensures [closed] !a.open && a.expected == 0 && zzSameSlice(a.blocks, old(a.blocks)[:0])
 //@ ensures [keeps]  a.haveLast == old(a.haveLast) && a.lastHeader == old(a.lastHeader)
 
 //@ func (*assembler).complete
+//@ emits fn:deliverFrame
 //@ nosafety nil-deref nil-iface
-//@ noframe
+//@ modifies a.open, a.header, a.blocks[*], a.expected, a.lastBlockTime, a.lastHeader, a.haveLast
 //@ requires a != nil
-//@ ensures [closed]  !a.open && len(a.blocks) == 0
+//@ ensures [closed]  !a.open && zzSameSlice(a.blocks, old(a.blocks)[:0])
 //@ ensures [keeps]   a.haveLast == old(a.haveLast) && a.lastHeader == old(a.lastHeader)
 //@ ensures [deliver] zzCalls("fn:deliverFrame") <= 1
 
 //@ func (*assembler).startMessage
+//@ emits fn:deliverFrame, secs1.(*ConnectionMetrics).incInvalidFirstBlockCount, fn:notify
 //@ nosafety nil-deref nil-iface
-//@ noframe
+//@ modifies a.open, a.header, a.blocks[*], a.expected, a.lastBlockTime, a.lastHeader, a.haveLast
 //@ requires a != nil
 //@ ensures [invalid] !specValidFirst(blk) ==> result == nil && zzCalls("fn:deliverFrame") == 0 && a.open == old(a.open) &&
 //@                   a.haveLast == old(a.haveLast) && a.lastHeader == old(a.lastHeader) && a.expected == old(a.expected)
 //@ ensures [record]  specValidFirst(blk) ==> a.haveLast && a.lastHeader == blk.header
 //@ ensures [single]  specValidFirst(blk) && specBlkE(blk) ==> !a.open
+//@ cover [single]  specValidFirst(blk) && specBlkE(blk)
+//@ cover [multi]   specValidFirst(blk) && !specBlkE(blk)
+//@ cover [invalid] !specValidFirst(blk)
 //@ ensures [multi]   specValidFirst(blk) && !specBlkE(blk) ==> a.open && a.expected == 2 && len(a.blocks) == 1 && result == nil &&
 //@                   zzCalls("fn:deliverFrame") == 0 && a.header == blk.messageHeader()
 //@ ensures [once]    zzCalls("fn:deliverFrame") <= 1 && (zzCalls("fn:deliverFrame") == 1 ==> specBlkE(blk))
 
 //@ func (*assembler).appendBlock
+//@ emits fn:deliverFrame
 //@ nosafety nil-deref nil-iface
-//@ noframe
+//@ modifies a.open, a.header, a.blocks[*], a.expected, a.lastBlockTime, a.lastHeader, a.haveLast
 //@ requires a != nil
 //@ ensures [record] a.haveLast && a.lastHeader == blk.header
 //@ ensures [last]   specBlkE(blk) ==> !a.open
@@ -169,8 +176,9 @@ func specBlkR(blk block) bool     { return blk.header[0]&0x80 != 0 }
 //@ ensures [once]   zzCalls("fn:deliverFrame") <= 1 && (zzCalls("fn:deliverFrame") == 1 ==> specBlkE(blk))
 
 //@ func (*assembler).accept
+//@ emits fn:deliverFrame, fn:notify, secs1.(*ConnectionMetrics).incInvalidFirstBlockCount, secs1.(*ConnectionMetrics).incPartialTimeoutCount, secs1.(*ConnectionMetrics).incBlockNumberMismatchCount, secs1.(*ConnectionMetrics).incBlockDupDropCount, secs1.(*ConnectionMetrics).incBlockDirDropCount, secs1.(*ConnectionMetrics).incDeviceIDMismatchCount
 //@ nosafety nil-deref nil-iface
-//@ noframe
+//@ modifies a.open, a.header, a.blocks[*], a.expected, a.lastBlockTime, a.lastHeader, a.haveLast
 //@ requires a != nil
 //@ ensures [dev]  specBlkDev(blk) != old(a.deviceID) ==> result == nil && zzCalls("fn:deliverFrame") == 0 && a.open == old(a.open) &&
 //@                a.expected == old(a.expected) && a.haveLast == old(a.haveLast) && a.lastHeader == old(a.lastHeader) && len(a.blocks) == old(len(a.blocks))
@@ -185,4 +193,7 @@ func specBlkR(blk block) bool     { return blk.header[0]&0x80 != 0 }
 //@ ensures [first] zzCalls("fn:deliverFrame") == 1 && (!old(a.open) || zzCalls("secs1.(*ConnectionMetrics).incPartialTimeoutCount") == 1 ||
 //@                zzCalls("secs1.(*ConnectionMetrics).incBlockNumberMismatchCount") == 1) ==> specValidFirst(blk)
 //@ ensures [rec]  zzCalls("fn:deliverFrame") == 1 ==> a.haveLast && a.lastHeader == blk.header && !a.open
-//@ ensures [alive] true
+//@ cover [delivered]  zzCalls("fn:deliverFrame") == 1
+//@ cover [dup]        old(a.haveLast) && blk.header == old(a.lastHeader)
+//@ cover [continued]  zzCalls("fn:deliverFrame") == 1 && old(a.open) && zzCalls("secs1.(*ConnectionMetrics).incPartialTimeoutCount") == 0 && zzCalls("secs1.(*ConnectionMetrics).incBlockNumberMismatchCount") == 0
+//@ cover [restarted]  zzCalls("secs1.(*ConnectionMetrics).incBlockNumberMismatchCount") == 1 && zzCalls("fn:deliverFrame") == 1
